@@ -54,6 +54,9 @@ def standin(tier, seed):
         yield "atomic, single exchange", Atoms("Cu"), [("x", lambda: ExchangeMove(L.copy())), ("d", lambda: DisplacementMove(L.copy(), Ball(0.2)))], None, None
         yield "atomic, default_label 0", Atoms("Cu"), [("x", lambda: ExchangeMove(L.copy())), ("d", lambda: DisplacementMove(L.copy(), Ball(0.2)))], 0, None
         yield "atomic, default_label -1", Atoms("Cu"), [("x", lambda: ExchangeMove(L.copy())), ("d", lambda: DisplacementMove(L.copy(), Ball(0.2)))], -1, None
+        # the label taken from a label array (a numpy integer, as `labels.min()` or `labels[i]` gives it) is as legal as a Python int
+        yield "atomic, default_label numpy int64(-1)", Atoms("Cu"), [("x", lambda: ExchangeMove(L.copy())), ("d", lambda: DisplacementMove(L.copy(), Ball(0.2)))], np.int64(-1), None
+        yield "atomic, default_label numpy int32(5)", Atoms("Cu"), [("x", lambda: ExchangeMove(L.copy())), ("d", lambda: DisplacementMove(L.copy(), Ball(0.2)))], np.int32(5), None
         yield "molecular (CO), single exchange", Atoms("CO", positions=[[0, 0, 0], [0, 0, 1.1]]), [("x", lambda: ExchangeMove(L.copy(), TranslationRotation())), ("d", lambda: DisplacementMove(L.copy(), Ball(0.2)))], None, None
         yield "same exchange move under two names and multiplied displacement", Atoms("Cu"), [("x", "shared"), ("x2", "shared"), ("dd", lambda: DisplacementMove(L.copy(), Ball(0.2)) * 2)], None, None
         G = np.array([0, 0, 1, 1])
@@ -153,7 +156,7 @@ def standin(tier, seed):
                 V.add(f"{name}:particle_counter", case, f"counter {sim.number_of_exchange_particles}, expected {count}"); break
             if template != t0 or any(not np.array_equal(template.arrays[k], t0.arrays[k]) for k in t0.arrays) or len(template) != len(t0):
                 V.add(f"{name}:template_modified", case, "exchange template changed"); break
-    return V.result(bound=f"10 move tables (atomic / diatomic species, default labels None / 0 / -1, shared and multiplied moves, composites) x {steps} steps")
+    return V.result(bound=f"12 move tables (atomic / diatomic species, default labels None / 0 / -1 / numpy integers, shared and multiplied moves, composites) x {steps} steps")
 
 
 def replay(case):
